@@ -90,9 +90,12 @@ def bucket_events(tag, total):
 
 
 CORPUS = ["INVALID", "U:999999", "UNIMOD:Nope", "Formula:Xx2", "Glycan:Foo", "Obs:abc", "U:+1a", "M:00000000", "X:nope",
-          "R:nope", "G:nope", "Nope|INFO:x", "INFO:only", "Formula:", "Glycan:Hex2Foo", "MOD:xyz", "Oxidized", "unimod:",
+          "R:nope", "G:nope", "Nope|INFO:x", "INFO:only", "Formula:", "Glycan:", "Glycan:Hex2Foo", "MOD:xyz", "Oxidized", "unimod:",
           "Oxidation", "U:35", "+15.995", "Formula:C2H4", "Glycan:Hex", "Obs:+1.5", "Oxidation|Nope", "Nope|Oxidation"]
-SLOTS = ["internal", "nterm", "cterm", "unknown", "labile", "interval"]
+SLOTS = ["internal", "nterm", "cterm", "unknown", "labile", "interval", "static", "static_nterm"]
+# global isotope labels and charge adducts have their own value grammars
+ISOTOPE_CORPUS = ["13C", "15N", "D", "T", "2H", "18O", "34S", "Foo", "13X", "99C", "C13"]
+ADDUCT_CORPUS = ["+H+", "+2Na+,+H+", "+K+", "-H+", "+Ca2+", "+Cl-", "+e-", "+Foo+", "", "+2Xx+", "+Na+,+Qq+"]
 
 
 def deferred_event(pp, tid, value, slot, rnd):
@@ -103,6 +106,10 @@ def deferred_event(pp, tid, value, slot, rnd):
         A["internal"] = [{"i": rnd.randrange(n), "mods": [m]}]
     elif slot == "interval":
         A["intervals"] = [{"s": 0, "e": n, "amb": False, "mods": [m]}]
+    elif slot == "static":
+        A["static"] = [{"v": f"s:[{value}]@{A['seq'][0]}", "m": 1}]
+    elif slot == "static_nterm":
+        A["static"] = [{"v": f"s:[{value}]@N-Term", "m": 1}]
     else:
         A[slot] = [m]
     text = anngen.render(A)
@@ -172,6 +179,23 @@ def run(tier, seed, rep):
     mres = core.validate_traces("Trace_Machine", mevs, "C09", min_per_shard=2)
     divergences = mres.get("outs", [])
     rep.add_trace("parser_machine_conformance", mevs, mres, traces=len(strs))
+    for v in ISOTOPE_CORPUS:
+        text = f"<{v}>PEPTIDE"
+        o, a = call(pp.parse, text)
+        o2, r2 = call(pp.mass, text)
+        o3, r3 = call(pp.comp, text)
+        evs.append({"tid": f"D{j}", "k": "deferred_label", "label": v, "text": text, "parse": exc_info(o, a),
+                    "mass": exc_info(o2, r2), "comp": exc_info(o3, r3),
+                    "unchanged": bool(o2 == "ret" and abs(r2 - pp.mass("PEPTIDE")) < 1e-9)})
+        j += 1
+    for v in ADDUCT_CORPUS:
+        text = f"PEPTIDE/2[{v}]"
+        o, a = call(pp.parse, text)
+        o2, r2 = call(pp.mass, text)
+        o3, r3 = call(pp.comp, text)
+        evs.append({"tid": f"D{j}", "k": "deferred_adduct", "adduct": v, "text": text, "parse": exc_info(o, a),
+                    "mass": exc_info(o2, r2), "comp": exc_info(o3, r3)})
+        j += 1
     res = core.validate_traces("Trace_Parser", evs, "C09")
     rep.add_trace("parser_totality", evs, res, traces=nstrings + sum(v[0] for v in buckets.values()) + j,
                   sig=lambda e: (e["k"], json.dumps(e.get("outcome")), e.get("valid"), e.get("v"), e.get("slot")))
@@ -195,8 +219,10 @@ def replay(path):
             k = outcome_of(pp, s)
             new.append({"tid": f"R.{i}", "k": "bucket", "outcome": {"cls": k[0], "isv": k[1], "ser": k[2]}, "valid": k[3],
                         "count": 1, "witness": [s]})
-    else:
+    elif ev["k"] == "deferred":
         new = [deferred_event(pp, "R.0", ev["v"][2:], ev["slot"], random.Random(0))]
+    else:
+        new = [ev]
     res = core.validate_traces("Trace_Parser", new, "C09")
     rep = core.Report("C09", "quick", 0)
     rep.add_trace("replay", new, res)
